@@ -191,6 +191,7 @@ fn explore<C: CellType>(ctx: &mut WorkerCtx, p: &Plan, only_pair: Option<u64>) {
     }
     let (shard, nshards) = if ctx.only.is_some() { (0, 1) } else { (ctx.shard, ctx.nshards) };
     let mut pair_idx = 0u64;
+    let mut mine_count = 0u64;
     for depth in 1..=p.depth {
         let last = depth == p.depth;
         let n = pool.len();
@@ -207,7 +208,10 @@ fn explore<C: CellType>(ctx: &mut WorkerCtx, p: &Plan, only_pair: Option<u64>) {
                 };
                 let (x, y) = (&pool[i], &pool[j]);
                 let mut ck = Checker { asg: if mine { &asg[..] } else { &asg[..0] }, errors: Vec::new(), evals: 0 };
-                if mine && pair_idx % 4096 == 0 {
+                if mine {
+                    mine_count += 1;
+                }
+                if mine && mine_count % 512 == 1 {
                     ctx.mark(pair_idx, C::BITS as u64, format!("{x:?} , {y:?}").as_bytes());
                 }
                 let (s, pr) = binary(&mut ck, x, y);
